@@ -176,7 +176,14 @@ impl sam::alignment::Record for Record<'_> {
 
     fn quality_scores(&self) -> Box<dyn sam::alignment::record::QualityScores + '_> {
         if self.bam_flags.is_unmapped() || self.cram_flags.quality_scores_are_stored_as_array() {
-            Box::new(Scores(&self.quality_scores[..]))
+            let quality_scores = &self.quality_scores[..];
+
+            // Missing quality scores are stored as 0xff for each base.
+            if is_missing_quality_scores(quality_scores) {
+                Box::new(Scores(&[]))
+            } else {
+                Box::new(Scores(quality_scores))
+            }
         } else {
             Box::new(QualityScores::new(&self.features, self.read_length))
         }
@@ -262,6 +269,11 @@ impl<'c> sam::alignment::record::Data<'c> for EmptyData<'c> {
     > {
         Box::new(iter::empty())
     }
+}
+
+fn is_missing_quality_scores(src: &[u8]) -> bool {
+    const MISSING: u8 = 0xff;
+    src.iter().all(|&b| b == MISSING)
 }
 
 pub(crate) fn calculate_alignment_span(read_length: usize, features: &[Feature]) -> usize {
